@@ -366,6 +366,10 @@ def analyse(mod, run, label):
     from .c12 import measured_values
     pf = need_fn(mod, "varintPFORComputeThreshold"); pfi = w.fi(pf).prepare()
     mv = measured_values(pf, w)
+    if not mv:
+        # the public function may only allocate the scratch copy and leave the computation to a file-local core helper
+        cores6 = [h_ for h_ in {mod.fn(c_.get("callee") or "") for c_ in pf.calls()} if h_ is not None and h_.internal and h_.blocks and measured_values(h_, w)]
+        if len(cores6) == 1: pf = cores6[0]; pfi = w.fi(pf).prepare(); mv = measured_values(pf, w)
     if not mv: raise AnalysisBroken("A6: no width computation in varintPFORComputeThreshold")
     stores = {}
     for i in pf.insts():
